@@ -65,7 +65,21 @@ fn main() {
         };
         if let Some(f) = fam {
             let mut lines = vec![];
-            f(i * 1000, &mut rng, &mut lines);
+            // a scenario in which the code under test deadlocks the driver thread too is unwound by
+            // the runtime: it is reported as an aborted run
+            let r = std::panic::catch_unwind(std::panic::AssertUnwindSafe(|| {
+                let mut ls = vec![];
+                f(i * 1000, &mut rng, &mut ls);
+                ls
+            }));
+            match r {
+                Ok(ls) => lines = ls,
+                Err(_) => lines.push(format!(
+                    "conn id={} bytes= mode=halfclose hold=none segs=none unix=0 script= i_fam={} | delivered= wire= eof=0 results= hang=1 dates=ok fresh=0 received=0 aborted=1",
+                    i * 1000,
+                    kind
+                )),
+            }
             for (j, l) in lines.iter().enumerate() {
                 // unique ids within a family
                 let l = l.replacen(&format!("conn id={}", i * 1000), &format!("conn id={}", i * 1000 + j), 1);
@@ -73,7 +87,7 @@ fn main() {
             }
             continue;
         }
-        let line = match kind {
+        let line = std::panic::catch_unwind(std::panic::AssertUnwindSafe(|| match kind {
             "queue" => ctl_queue::run(i, &mut rng),
             "srvq" => ctl_srvq::run(i, &mut rng),
             "srvp" => ctl_srvq::run_pool(i, &mut rng),
@@ -83,7 +97,13 @@ fn main() {
                 eprintln!("usage: controlled queue|pool|seq <n> [first]");
                 std::process::exit(2);
             }
-        };
+        }))
+        .unwrap_or_else(|_| match kind {
+            // the runtime unwound the driver thread out of a deadlock: an aborted run
+            "queue" | "srvq" => format!("queue id={} anon=1 burst=0 seed=0 ptimer=0 prods= cons= | labels= hist= left=? blocked= quiet=0 aborted=1 clock=0", i),
+            "pool" | "srvp" => format!("pool id={} anon={} burst=0 seed=0 ptimer=0 | labels= started=never live_burst=0 live_idle=0 live_dropped=0 live_end=0 quiet=000 aborted=1 clock=0", i, if kind == "srvp" { 1 } else { 0 }),
+            _ => format!("seq id={} seed=0 progs= | labels= sock= quiet=0 aborted=1", i),
+        });
         writeln!(out, "{}", line).unwrap();
     }
 }
